@@ -16,6 +16,7 @@ import (
 // scripted backend responses keyed by request target
 type respScript struct {
 	Raw        []byte // full raw response bytes (nil: default 200)
+	Bursts     []int  // when set: Raw is written in pieces of these lengths (rest at the end), paced
 	CloseAfter bool
 	// fault before answering
 	Fault string // "", "close-before-response", "stall", "half-response"
@@ -165,7 +166,24 @@ func (w *world) handler(name string) func(bc *sys.BackendConn) {
 				}
 			}
 			if sc != nil && sc.Raw != nil {
-				bc.Conn.Write(sc.Raw)
+				if len(sc.Bursts) > 0 {
+					// deliver the response in separate writes, paced so that the proxy sees
+					// them as separate reads (pacing only shapes coverage, never a verdict)
+					rest := sc.Raw
+					for _, n := range sc.Bursts {
+						if n > len(rest) {
+							n = len(rest)
+						}
+						if n > 0 {
+							bc.Conn.Write(rest[:n])
+							rest = rest[n:]
+							time.Sleep(1500 * time.Microsecond)
+						}
+					}
+					bc.Conn.Write(rest)
+				} else {
+					bc.Conn.Write(sc.Raw)
+				}
 				if sc.CloseAfter {
 					return
 				}
